@@ -208,7 +208,9 @@ class SchemaValidationContext:
     ) -> None:
         default_input = input_value.default
 
-        if not default_input:
+        # A default value can only be validated against an input type; a type
+        # that is not an input type has already been reported by the caller.
+        if not default_input or not is_input_type(input_value.type):
             return
 
         errors: list[tuple[GraphQLError, list[str | int]]] = []
